@@ -10,6 +10,8 @@ use syn::Expr;
 /// an argument of a call of a function of the crate
 pub enum Arg<'e> {
     E(&'e Expr),
+    /// already evaluated
+    V(Val),
 }
 
 impl<'a> Tr<'a> {
@@ -62,9 +64,15 @@ impl<'a> Tr<'a> {
             }
             _ => return unsupported(&format!("call of `{}` with / without a receiver", info.name), sp),
         }
+        // the element operations are handed on
+        let mut fargs: Vec<Val> = vec![];
+        for (n, _) in &info.fparams {
+            fargs.push(self.fparam(n, &format!("call of `{}`", info.name), sp)?);
+        }
         for (k, (a, p)) in args.into_iter().zip(info.params.iter()).enumerate() {
             let out = d.outs.contains(&k);
             let v = match a {
+                Arg::V(v) => v,
                 Arg::E(e) => {
                     if p.by_mut_ref {
                         // `&mut place`
@@ -100,9 +108,13 @@ impl<'a> Tr<'a> {
             match (&v.ty, &v.parts) {
                 (Ty::Range, Some(p)) | (Ty::Bounds, Some(p)) => flat.extend(p.iter().cloned()),
                 (Ty::Range, None) | (Ty::Bounds, None) => return unsupported("range argument whose bounds are not known", sp),
-                (Ty::Buf, _) | (Ty::Closure, _) => {}
+                (Ty::Buf, _) | (Ty::Closure, _) | (Ty::Formatter, _) | (Ty::Hasher, _) => {}
                 _ => flat.push(v),
             }
+        }
+        if !fargs.is_empty() {
+            fargs.append(&mut flat);
+            flat = fargs;
         }
         let op = match &d.external {
             Some(h) => {
@@ -116,6 +128,28 @@ impl<'a> Tr<'a> {
                 format!("gen_{}", key)
             }
         };
+        if info.ret == Ty::NewBuf && self.me.ret == Ty::RetBuf {
+            // a constructor called by a method that returns the buffer: it runs on the memory that receives the result
+            if self.mem_used || self.in_loop || !back.is_empty() || d.external.is_some() {
+                return unsupported(&format!("call of the constructor `{}` here (the function has one place for a buffer by value: its result)", info.name), sp);
+            }
+            self.mem_used = true;
+            let mut call = op.clone();
+            for a in &flat {
+                call.push(' ');
+                call.push_str(&a.paren());
+            }
+            let t = self.fresh();
+            self.harmless = false;
+            self.user = true;
+            self.emit(
+                pre,
+                env,
+                Some(format!("'(_, {})", t)),
+                Comp::Op("with_buf".into(), vec![Val::atom("mem'", Ty::Any), Val::app(call, Ty::Any)], Ty::Any),
+            )?;
+            return Ok(Comp::Ret(Val::atom(t, Ty::RetBuf)));
+        }
         if back.is_empty() {
             return Ok(Comp::Op(op, flat, info.ret.clone()));
         }
@@ -171,7 +205,7 @@ impl<'a> Tr<'a> {
             }
             (["Some"], 1) => {
                 let v = self.val(&c.args[0], env, pre)?;
-                if v.ty.coq().is_err() || v.ty == Ty::Unit {
+                if v.ty.coq().is_err() || v.ty == Ty::Unit || v.ty == Ty::NewBuf {
                     return unsupported(&format!("Some of a {}", v.ty.show()), c.span());
                 }
                 let ty = Ty::Opt(Box::new(v.ty.clone()));
@@ -303,12 +337,134 @@ impl<'a> Tr<'a> {
         }
         let name = m.method.to_string();
         let nargs = m.args.len();
+        if let Some(v) = crate::stdtab::whole_expr(&norm_tokens(m)) {
+            return Ok(Comp::Ret(v));
+        }
         // `value.clone()` borrows: it is not a use by value
         let place = self.place_of(&m.receiver, env, pre)?;
         let recv = match &place {
             Some(p) => self.read_place(p, env, pre, m.receiver.span())?,
             None => self.val(&m.receiver, env, pre)?,
         };
+        // ---- the adaptors of the trait impls (stdtab.rs, [adaptor])
+        match (&recv.ty, name.as_str(), nargs) {
+            // a `&self` method of the buffer on another buffer
+            (Ty::OBuf, _, _) => {
+                return match self.lookup(Some("CircularBuffer"), &name) {
+                    Some(key) => self.with_other(&key, &recv, &m.args, env, pre, m.span()),
+                    None => unsupported(&format!("call of the method `{}` on another buffer (not one of the translated functions)", name), m.span()),
+                };
+            }
+            (Ty::Formatter, "debug_list", 0) => return Ok(Comp::Ret(Val::atom("<debug_list>", Ty::DebugList))),
+            (Ty::DebugList, "finish", 0) => return Ok(Comp::unit()),
+            (Ty::DebugList, "entries", 1) => {
+                // entries(x): x.into_iter(), then every item is formatted (user code)
+                let x = self.val(&m.args[0], env, pre)?;
+                let it = match &x.ty {
+                    Ty::Buf => {
+                        // <&CircularBuffer as IntoIterator>::into_iter
+                        let key = match self.lookup(Some("&CircularBuffer"), "into_iter") {
+                            Some(k) => k,
+                            None => return unsupported("iteration over `&CircularBuffer` (its IntoIterator impl is not among the functions)", m.span()),
+                        };
+                        let c = self.call_known(&key, Some((&m.args[0], None, x.clone())), vec![], env, pre, m.span())?;
+                        self.bind_val(c, env, pre, m.span())?
+                    }
+                    // an Iterator is its own IntoIterator
+                    Ty::Rec(n) if n == "Iter" => x,
+                    Ty::OIter(_) => x,
+                    other => return unsupported(&format!("DebugList::entries of a {}", other.show()), m.span()),
+                };
+                let e = self.fresh();
+                let body = Comp::Bind(
+                    None,
+                    Box::new(Comp::Op("emit".into(), vec![Val::app(format!("EvFmt {}", e), Ty::Any)], Ty::Unit)),
+                    Box::new(Comp::Op("user_call".into(), vec![Val::atom("FFmt", Ty::Any)], Ty::Unit)),
+                );
+                let c = self.iter_for_each(it, (e, body), env, pre, m.span())?;
+                self.emit(pre, env, None, c)?;
+                return Ok(Comp::Ret(Val::atom("<debug_list>", Ty::DebugList)));
+            }
+            (Ty::Usize, "hash", 1) => {
+                self.typed(&m.args[0], env, pre, &Ty::Hasher, "argument of hash")?;
+                self.user = true;
+                return Ok(Comp::Op("emit".into(), vec![Val::app(format!("EvHashLen {}", recv.paren()), Ty::Any)], Ty::Unit));
+            }
+            (Ty::ElemRef, "hash", 1) | (Ty::Elem, "hash", 1) => {
+                self.typed(&m.args[0], env, pre, &Ty::Hasher, "argument of hash")?;
+                self.emit(pre, env, None, Comp::Op("emit".into(), vec![Val::app(format!("EvHash {}", recv.paren()), Ty::Any)], Ty::Unit))?;
+                return Ok(Comp::Op("user_call".into(), vec![Val::atom("FHash", Ty::Any)], Ty::Unit));
+            }
+            (Ty::Usize, "cmp", 1) => {
+                let b = self.typed(&m.args[0], env, pre, &Ty::Usize, "argument of usize::cmp")?;
+                return Ok(Comp::Ret(Val::app(format!("{} ?= {}", recv.paren(), b.paren()), Ty::Ordering)));
+            }
+            (Ty::Rec(n), "for_each", 1) if n == "Iter" => {
+                let body = self.closure_body(&m.args[0], Ty::ElemRef, env)?;
+                return self.iter_for_each(recv, body, env, pre, m.span());
+            }
+            (Ty::OIter(_), "for_each", 1) => {
+                let body = self.closure_body(&m.args[0], Ty::ElemRef, env)?;
+                return self.iter_for_each(recv, body, env, pre, m.span());
+            }
+            (Ty::Rec(n), "partial_cmp", 1) | (Ty::Rec(n), "cmp", 1) if n == "Iter" => {
+                let b = self.val(&m.args[0], env, pre)?;
+                return self.iter_cmp(recv, b, env, pre, m.span());
+            }
+            // an `I: IntoIterator`: into_iter() of the model's rendering is the rendering itself
+            (Ty::IterDriver(_), "into_iter", 0) => return Ok(Comp::Ret(recv)),
+            (Ty::IterDriver(item), "for_each", 1) => {
+                let body = self.closure_body(&m.args[0], (**item).clone(), env)?;
+                let f = self.lambda(&body.0, &body.1);
+                self.harmless = false;
+                self.user = true;
+                if !recv.atomic {
+                    return unsupported("for_each on an iterator that is not a variable", m.span());
+                }
+                return Ok(Comp::Op(recv.tm.clone(), vec![f], Ty::Unit));
+            }
+            // Iter::cloned(): Traits.cloned_for_each on the buffer the Iter looks at
+            (Ty::Rec(n), "cloned", 0) if n == "Iter" => {
+                let d = self.cloned_driver(recv, env, pre, m.span())?;
+                return Ok(Comp::Ret(d));
+            }
+            (Ty::OIter(_), "cloned", 0) => {
+                let d = self.cloned_driver(recv, env, pre, m.span())?;
+                return Ok(Comp::Ret(d));
+            }
+            // Extend<T> / Extend<&T> of the buffer: by the type of the items
+            (Ty::Buf, "extend", 1) if recv.tm == "<buffer>" => {
+                let x = self.val(&m.args[0], env, pre)?;
+                let which = match &x.ty {
+                    Ty::IterDriver(t) if **t == Ty::Elem => "extend<T>",
+                    Ty::IterDriver(t) if **t == Ty::ElemRef => "extend<&'aT>",
+                    other => return unsupported(&format!("extend with a {}", other.show()), m.span()),
+                };
+                let key = match self.index.get(&(Some("CircularBuffer".to_string()), which.to_string())) {
+                    Some(k) => k.clone(),
+                    None => return unsupported("call of `extend` (the Extend impl is not among the functions)", m.span()),
+                };
+                return self.call_known(&key, Some((&m.receiver, place, recv)), vec![Arg::V(x)], env, pre, m.span());
+            }
+            (Ty::OIter(_), "partial_cmp", 1) | (Ty::OIter(_), "cmp", 1) => {
+                let b = self.val(&m.args[0], env, pre)?;
+                return self.iter_cmp(recv, b, env, pre, m.span());
+            }
+            (Ty::OIter(_), "len", 0) | (Ty::OIter(_), "clone", 0) => {
+                return unsupported(&format!("method `{}` of an Iter over another buffer", name), m.span());
+            }
+            (Ty::OSlice(_), "len", 0) => return Ok(Comp::Ret(Val::app(format!("slen {}", recv.paren()), Ty::Usize))),
+            (Ty::OSlice(_), "is_empty", 0) => return Ok(Comp::Ret(Val::app(format!("slen {} =? 0", recv.paren()), Ty::Bool))),
+            (Ty::List, "split_at", 1) => {
+                let k = self.typed(&m.args[0], env, pre, &Ty::Usize, "argument of split_at")?;
+                let chk = Val::app(format!("{} <=? zlen {}", k.paren(), recv.paren()), Ty::Bool);
+                self.emit(pre, env, None, Comp::Op("gen_bounds_check".into(), vec![chk], Ty::Unit))?;
+                let a = Val::app(format!("firstn (Z.to_nat {}) {}", k.paren(), recv.paren()), Ty::List);
+                let b = Val::app(format!("skipn (Z.to_nat {}) {}", k.paren(), recv.paren()), Ty::List);
+                return Ok(Comp::Ret(tuple_val(vec![a, b])));
+            }
+            _ => {}
+        }
         // a method of a struct of the crate
         let owner: Option<String> = match &recv.ty {
             Ty::Buf if recv.tm == "<into_iter>" => Some("IntoIter".into()),
@@ -363,6 +519,13 @@ impl<'a> Tr<'a> {
             match name.as_str() {
                 "is_empty" => return Ok(Comp::Ret(Val::app(format!("{} <=? {}", p[1].paren(), p[0].paren()), Ty::Bool))),
                 "len" => return Ok(Comp::Ret(Val::app(format!("gen_range_len {} {}", p[0].paren(), p[1].paren()), Ty::Usize))),
+                "size_hint" => {
+                    let n = format!("gen_range_len {} {}", p[0].paren(), p[1].paren());
+                    return Ok(Comp::Ret(Val::app(
+                        format!("({}, Some ({}))", n, n),
+                        Ty::Tuple(vec![Ty::Usize, Ty::Opt(Box::new(Ty::Usize))]),
+                    )));
+                }
                 "next" | "next_back" => {
                     let place = match place {
                         Some(pl) => pl,
@@ -429,6 +592,34 @@ impl<'a> Tr<'a> {
                     return Ok(Comp::MatchOpt(recv.clone(), x, Box::new(none), Box::new(some)));
                 }
                 _ => {}
+            }
+        }
+        // nightly: <[T]>::split_off* on a `&mut &[T]` / `&mut &mut [T]` parameter
+        if recv.ty == Ty::Slice {
+            if let Some(Place::Var(x)) = &place {
+                if self.me.params.iter().any(|p| p.by_mut_ref && &p.name == x) {
+                    if let Some(r) = crate::stdtab::split_off(&name) {
+                        let pl = place.clone().unwrap();
+                        let (a, b) = (self.fresh(), self.fresh());
+                        let res = if r.ranged {
+                            if nargs != 1 {
+                                return unsupported(&format!("`{}` with {} argument(s)", name, nargs), m.span());
+                            }
+                            let rg = self.typed(&m.args[0], env, pre, &Ty::Osr, "range of split_off")?;
+                            let full = Ty::Tuple(vec![Ty::Slice, Ty::Opt(Box::new(Ty::Slice))]);
+                            self.emit(pre, env, Some(format!("'({}, {})", a, b)), Comp::Op(r.model.into(), vec![recv.clone(), rg], full))?;
+                            Ty::Opt(Box::new(Ty::Slice))
+                        } else {
+                            if nargs != 0 {
+                                return unsupported(&format!("`{}` with {} argument(s)", name, nargs), m.span());
+                            }
+                            pre.push(Pre::Let(format!("'({}, {})", a, b), Val::app(format!("{} {}", r.model, recv.paren()), Ty::Any)));
+                            Ty::Opt(Box::new(Ty::Ref))
+                        };
+                        self.write_place(&pl, Val::atom(a, Ty::Slice), env, pre, m.span())?;
+                        return Ok(Comp::Ret(Val::atom(b, res)));
+                    }
+                }
             }
         }
         if recv.ty == Ty::Bounds && nargs == 0 {
